@@ -477,7 +477,7 @@ def obligations(tier):
                                   labels=(nm,), max_paths=5000000))
     for n in range(0, 6 if tier == 'quick' else 8):
         out.append(Obligation('cfg-free[%d]' % n, ob_cfg_free(n), dict(length=n, alphabet=CFGA), labels=('rejected',), max_paths=3000000))
-    for n in (3, 4) if tier == 'quick' else (3, 4, 5, 6):
-        out.append(Obligation('cfg-args[%d]' % n, ob_cfg_free(n, 'args'), dict(context='not(W) | all(W) | any(W), alone, in all( ) or after any(a, ', window=n, alphabet='a l , ( ) space = "'), labels=('rejected', 'value'), max_paths=3000000))
+    for n in (0, 1, 2, 3, 4) if tier == 'quick' else (0, 1, 2, 3, 4, 5, 6):
+        out.append(Obligation('cfg-args[%d]' % n, ob_cfg_free(n, 'args'), dict(context='not(W) | all(W) | any(W), alone, in all( ) or after any(a, ', window=n, alphabet='a l , ( ) space = "'), labels=('rejected', 'value') if n >= 3 else (), optional_labels=('rejected', 'value'), max_paths=3000000))
     out.append(Obligation('dependency-update', ob_dependency_update(), dict(real='cargo.manifest.Dependency.accepts_version / api / update_version', requirements='op + 1.d, then op + {1,2}.d (d a symbolic digit)', version='{1,2}.d.0', reads_before_update='accepts_version and/or api, either order'), labels=('updated',), max_paths=3000000))
     return out
